@@ -76,7 +76,8 @@ def gen_cif(cfg, sym="P 21/c", cell=CELLS[0], natoms=3):
     adp, es, occ_on, mkey, tloop, glob = cfg
     atoms = atoms_n(natoms)
     L = []
-    if glob:
+    glob_last = glob and es  # the extra 'global' block comes before the data block in half of the files that have one, after it in the others
+    if glob and not glob_last:
         L += ["data_global", "_audit_creation_method 'x'", ""]
     L += ["data_blk", "_symmetry_space_group_name_H-M   '%s'" % sym]
     exp_cell = []
@@ -146,6 +147,8 @@ def gen_cif(cfg, sym="P 21/c", cell=CELLS[0], natoms=3):
         disp = {el.upper(): [float(fmt(DISP[el][0], 4)), float(fmt(DISP[el][1], 4))] for el in els}
     else:
         disp = {el.upper(): None for el in els}
+    if glob_last:
+        L += ["", "data_global", "_audit_creation_method 'x'"]
     return "\n".join(L) + "\n", {"cell": exp_cell, "sgname": "".join(sym.split()), "atoms": exp, "dispersion": disp}
 
 
@@ -365,6 +368,16 @@ def check_case(case):
         elif case["kind"] == "cif-symbols":
             cfg = ("Uiso", False, True, None, "disp", False)
             for key0, sym, csys in pdb_symbols()[case["lo"]:case["hi"]]:
+                # a multiplicity the reader COMPUTES rests on the operations tabulated for the symbol: they must at least form a group
+                # (exact arithmetic; which group a symbol denotes and what its operations are is C04's subject, decided there in full)
+                no_ = O.name_to_setting()[key0][0]
+                try:
+                    ops_ = O.exact_ops(sg.sg(sgno=no_))
+                    S_ = set(ops_)
+                    closed = len(S_) == len(ops_) and all(O.compose(a_, b_) in S_ for a_ in ops_ for b_ in ops_)
+                except Exception:
+                    closed = False
+                r.require(closed, "cif:symbol=%r:table-is-a-group" % key0, "the operations used to compute site multiplicities for this symbol form a group")
                 blank = sym.replace(" 1 ", " ")[:-2] if csys == "monoclinic" else sym  # 'P 1 21/c 1' -> 'P 21/c': CIF carries the short symbol
                 for spelled in (key0.upper()[0] + key0[1:], blank, "  ".join(key0)):
                     key = "cif:symbol=%r" % spelled
